@@ -179,7 +179,8 @@ def _check_specific_rule_ignore(line: str, rule_id: str) -> bool:
     space_match = re.search(r"ignore-file\s+([^\s#]+(?:\s+[^\s#]+)*)", line, re.IGNORECASE)
     if space_match:
         return check_space_separated_rules(space_match.group(1), rule_id)
-    return False
+    # Bare "ignore-file" (nothing after it) ignores all rules
+    return bool(re.search(r"ignore-file\s*$", line, re.IGNORECASE))
 
 
 def _check_specific_rule_in_line(code: str, rule_id: str) -> bool:
@@ -190,7 +191,10 @@ def _check_specific_rule_in_line(code: str, rule_id: str) -> bool:
     space_match = re.search(r"ignore\s+([^\s#]+(?:\s+[^\s#]+)*)", code, re.IGNORECASE)
     if space_match:
         return check_space_separated_rules(space_match.group(1), rule_id)
-    return "ignore-all" in code.lower()
+    if "ignore-all" in code.lower():
+        return True
+    # Bare "thailint: ignore" at the end of the line ignores all rules
+    return bool(re.search(r"(?:thailint|design-lint):\s*ignore\s*$", code, re.IGNORECASE))
 
 
 def _has_file_ignore_in_content(file_content: str, rule_id: str | None) -> bool:
